@@ -30,10 +30,12 @@
      Signal (:291-312, node.go:244-259)
        SigFlag        cancel flag set; the per-node pass is queued
        SigNode k      next node of the pass: repeat steps skipped, running -> canceled; k = Kill forwarded to the executor
+                      (also to a node already canceled whose command still executes: fix 767545b)
      Timeout          the DAG deadline passes (isTimeout becomes true, contexts expire)
      after wg.Wait() (:228-258)
        HBegin         handlers chosen from Status(g)
-       HStart h / HEnd h ok / HSkip h (dry) / HRefused h (expired context) / HFinish
+       HStart h / HEnd h ok / HSkip h (dry) / HFinish      (the handlers run with the context of the whole run, not
+                      with the steps' deadline: fix 246fa0b, F5d)
 
    Idle polling iterations change nothing and carry no label. *)
 From Coq Require Import List Arith Bool PeanoNat.
@@ -47,6 +49,7 @@ Record stepdef := { deps : list nat; cof : bool; cos : bool; rlimit : nat; pre :
 (* pre: the outcome the step's preconditions will have; sfail: node.setup will fail (I/O) *)
 
 Inductive handler := HSuccess | HFailure | HCancel | HExit.
+Inductive ostatus := ONone | ORunning | OError | OCancel | OSuccess.     (* Scheduler.Status *)
 
 Record cfg := {
   nsteps : nat;
@@ -72,7 +75,8 @@ Record state := {
   pc : lpc;
   sigq : list nat;
   sigleft : nat;
-  hst : handler -> hnode }.
+  hst : handler -> hnode;
+  decided : option ostatus }. (* the outcome the handlers were chosen for; Status reports it from then on (fix 08917f8, F4a) *)
 
 Inductive label :=
 | LMark (i d : nat) | LCommit (i : nat) | LLaunch (i : nat) | LSkipPre (i : nat) | LExit
@@ -80,7 +84,7 @@ Inductive label :=
 | WExecRefused (i : nat) | WExecEnd (i : nat) (ok : bool) | WAfter (i : nat) (early : bool)
 | WRetryWake (i : nat) | WRepeatWake (i : nat) | WFinish (i : nat)
 | SigFlag | SigNode (k : bool) | Timeout
-| HBegin | HStart (h : handler) | HEnd (h : handler) (ok : bool) | HSkip (h : handler) | HRefused (h : handler) | HFinish.
+| HBegin | HStart (h : handler) | HEnd (h : handler) (ok : bool) | HSkip (h : handler) | HFinish.
 
 Definition nstatus_eqb (a b : nstatus) : bool :=
   match a, b with
@@ -97,16 +101,16 @@ Definition hupd (f : handler -> hnode) (h : handler) (x : hnode) : handler -> hn
 
 Definition set_nd (s : state) (i : nat) (x : node) : state :=
   {| nd := upd (nd s) i x; canceled := canceled s; lasterr := lasterr s; timedout := timedout s; pc := pc s;
-     sigq := sigq s; sigleft := sigleft s; hst := hst s |}.
+     sigq := sigq s; sigleft := sigleft s; hst := hst s; decided := decided s |}.
 Definition set_pc (s : state) (p : lpc) : state :=
   {| nd := nd s; canceled := canceled s; lasterr := lasterr s; timedout := timedout s; pc := p;
-     sigq := sigq s; sigleft := sigleft s; hst := hst s |}.
+     sigq := sigq s; sigleft := sigleft s; hst := hst s; decided := decided s |}.
 Definition set_err (s : state) : state :=
   {| nd := nd s; canceled := canceled s; lasterr := true; timedout := timedout s; pc := pc s;
-     sigq := sigq s; sigleft := sigleft s; hst := hst s |}.
+     sigq := sigq s; sigleft := sigleft s; hst := hst s; decided := decided s |}.
 Definition set_hst (s : state) (h : handler) (x : hnode) : state :=
   {| nd := nd s; canceled := canceled s; lasterr := lasterr s; timedout := timedout s; pc := pc s;
-     sigq := sigq s; sigleft := sigleft s; hst := hupd (hst s) h x |}.
+     sigq := sigq s; sigleft := sigleft s; hst := hupd (hst s) h x; decided := decided s |}.
 
 Definition with_st (x : node) (v : nstatus) : node :=
   {| st := v; rc := rc x; dc := dc x; att := att x; ph := ph x; stale := stale x; outs := outs x |}.
@@ -150,16 +154,18 @@ Definition worker_gone (x : node) : bool :=
 Definition all_gone (s : state) : bool := forallb (fun j => worker_gone (nd s j)) (seq 0 n).
 
 (* ---- Scheduler.Status (:323-337) ---- *)
-Inductive ostatus := ONone | ORunning | OError | OCancel | OSuccess.
 Definition is_succeed (s : state) : bool :=
   forallb (fun j => match st (nd s j) with NSuccess | NSkipped => true | _ => false end) (seq 0 n).
 Definition graph_running (s : state) : bool := existsb (fun j => is_running (nd s j)) (seq 0 n).
-Definition overall (s : state) : ostatus :=
+Definition computed_overall (s : state) : ostatus :=
   if canceled s && negb (is_succeed s) then OCancel
   else if graph_running s then ORunning
   else if lasterr s then OError
   else if negb (all_terminal s) then ORunning      (* fix b9e9fa2 (F8a): a node not started yet => still running *)
   else OSuccess.
+(* once the steps have ended the outcome is decided and does not change any more (fix 08917f8) *)
+Definition overall (s : state) : ostatus :=
+  match decided s with Some o => o | None => computed_overall s end.
 Definition handlers_for (s : state) : list handler :=
   filter (hon c)
     ((match overall s with OSuccess => [HSuccess] | OError => [HFailure] | OCancel => [HCancel] | _ => [] end) ++ [HExit]).
@@ -282,38 +288,46 @@ Definition step (s : state) (l : label) : option state :=
   | SigFlag =>
       match sigleft s with
       | S k => Some {| nd := nd s; canceled := true; lasterr := lasterr s; timedout := timedout s; pc := pc s;
-                       sigq := sigq s ++ seq 0 n; sigleft := k; hst := hst s |}
+                       sigq := sigq s ++ seq 0 n; sigleft := k; hst := hst s; decided := decided s |}
       | O => None end
   | SigNode k =>
       (* k: the signal was forwarded to the node's executor (Kill called).  n.cmd exists once an attempt has run
          (it is never reset, so a later Signal reaches the executor of the latest attempt, finished or not); while
-         the worker is between its cancel test and Run (PStarting) it may or may not exist yet. *)
+         the worker is between its cancel test and Run (PStarting) it may or may not exist yet.  A node that an
+         earlier pass has flipped to canceled is still forwarded the signal while its command executes
+         (fix 767545b, F5a: re-sends and the SIGKILL escalation reach a live process). *)
       match sigq s with
       | [] => None
       | i :: q =>
           let s' := {| nd := nd s; canceled := canceled s; lasterr := lasterr s; timedout := timedout s;
-                       pc := pc s; sigq := q; sigleft := sigleft s; hst := hst s |} in
+                       pc := pc s; sigq := q; sigleft := sigleft s; hst := hst s; decided := decided s |} in
           if repeat (steps c i) then (if k then None else Some s') else
           match st (nd s i) with
           | NRunning =>
               if (if k then (0 <? att (nd s i)) || (match ph (nd s i) with PStarting => true | _ => false end)
                   else negb (0 <? att (nd s i)))
               then Some (set_nd s' i (with_st (nd s i) NCancel)) else None
+          | NCancel =>
+              if Bool.eqb k (match ph (nd s i) with PExec => true | _ => false end) then Some s' else None
           | _ => if k then None else Some s'
           end
       end
   | Timeout =>
       if tmo c && negb (timedout s)
       then Some {| nd := nd s; canceled := canceled s; lasterr := lasterr s; timedout := true; pc := pc s;
-                   sigq := sigq s; sigleft := sigleft s; hst := hst s |} else None
+                   sigq := sigq s; sigleft := sigleft s; hst := hst s; decided := decided s |} else None
   | HBegin =>
       match pc s with
-      | LExited => if all_gone s then Some (set_pc s (LHandlers (handlers_for s) false)) else None
+      | LExited => if all_gone s
+                   then Some {| nd := nd s; canceled := canceled s; lasterr := lasterr s; timedout := timedout s;
+                                pc := LHandlers (handlers_for s) false; sigq := sigq s; sigleft := sigleft s;
+                                hst := hst s; decided := Some (overall s) |}
+                   else None
       | _ => None end
   | HStart h =>
       match pc s with
       | LHandlers (h' :: t) false =>
-          if handler_eqb h h' && negb (dry c) && negb (timedout s)
+          if handler_eqb h h' && negb (dry c)
           then Some (set_pc (set_hst s h {| hs := NRunning; hatt := S (hatt (hst s h)) |}) (LHandlers (h' :: t) true))
           else None
       | _ => None end
@@ -332,13 +346,6 @@ Definition step (s : state) (l : label) : option state :=
           then Some (set_pc (set_hst s h {| hs := NSuccess; hatt := hatt (hst s h) |}) (LHandlers t false))
           else None
       | _ => None end
-  | HRefused h =>
-      match pc s with
-      | LHandlers (h' :: t) false =>
-          if handler_eqb h h' && negb (dry c) && timedout s
-          then Some (set_pc (set_hst s h {| hs := NError; hatt := hatt (hst s h) |}) (LHandlers t false))
-          else None
-      | _ => None end
   | HFinish =>
       match pc s with
       | LHandlers [] false => Some (set_pc s LDone)
@@ -348,7 +355,7 @@ Definition step (s : state) (l : label) : option state :=
 Definition init_node : node := {| st := NNone; rc := 0; dc := 0; att := 0; ph := PIdle; stale := 0; outs := [] |}.
 Definition init : state :=
   {| nd := fun _ => init_node; canceled := false; lasterr := false; timedout := false; pc := LHead;
-     sigq := []; sigleft := sigs c; hst := fun _ => {| hs := NNone; hatt := 0 |} |}.
+     sigq := []; sigleft := sigs c; hst := fun _ => {| hs := NNone; hatt := 0 |}; decided := None |}.
 
 Fixpoint run (s : state) (ls : list label) : option state :=
   match ls with
